@@ -3,7 +3,7 @@
 From Model Require Import Bytes Prim Tables Cert KAC Mapping Sig LS RI Validate.
 From Gen Require Import Tables Validators.
 From Coq Require Import Lia.
-From Proofs Require Import BytesLemmas CtorProofs MappingProofs CtorRT ValidatorTie ElsChain LS2Layers Retail SpecRI LS2Accept MetaAccept LSStrip GuardTie.
+From Proofs Require Import BytesLemmas CtorProofs MappingProofs CtorRT ValidatorTie ElsChain LS2Layers Retail SpecRI LS2Accept LS2Chain MetaAccept LSStrip GuardTie.
 Open Scope Z_scope.
 
 Theorem C14_signature : forall d t s, new_signature_from_bytes d t = Ok s ->
@@ -271,6 +271,20 @@ Proof.
   - vm_compute. reflexivity.
   - eexists. split; [vm_compute; reflexivity|]. vm_compute. discriminate.
 Qed.
+(* the middle link of the chain for LeaseSet2, over the validator regenerated from the Go source:
+   Validate success — together with what Go's types already guarantee of any LeaseSet2 value
+   (ls2_typed) — implies the clean round trip *)
+Theorem C14_ls2_validate_implies_round_trip : forall l opts b x r0 r,
+  ls2_validate l = true -> ls2_typed l opts ->
+  wf x -> read_destination x = Ok (l2_dest l, r0) ->
+  lease_set2_bytes l = Ok b -> wf (b ++ r) ->
+  Gen.Consts.c_lease_set2_LEASESET2_MIN_SIZE <= Z.of_nat (length (b ++ r)) ->
+  exists l', read_lease_set2 (b ++ r) = Ok (l', r) /\ lease_set2_bytes l' = Ok b /\
+    l2_published l' = l2_published l /\ l2_expires l' = l2_expires l /\ l2_flags l' = l2_flags l /\
+    l2_offline l' = l2_offline l /\ map_values (l2_options l') = map Proofs.MapRT.wire_pair opts /\
+    l2_keys l' = l2_keys l /\ l2_leases l' = l2_leases l /\ sig_bytes (l2_sig l') = sig_bytes (l2_sig l).
+Proof. exact ls2_validated_value_parses_back. Qed.
+Print Assumptions C14_ls2_validate_implies_round_trip.
 (* MetaLeaseSet, likewise: header fields within their widths, 0..16 entries each with a 32-byte
    hash, a valid entry type, 32-bit expiry, one-byte cost and a valid properties list *)
 Theorem C14_meta_built_value_parses_back : forall l opts eopts b x r0 r,
